@@ -498,9 +498,18 @@ func reifyMergeValue(
 		if err != nil {
 			return reflect.Value{}, raiseExpectedObject(opts.opts, val)
 		}
+		if !old.CanSet() {
+			// a struct held in a map or in an interface can not be updated in
+			// place: merge into a copy and hand the copy back
+			old = settableCopy(old)
+			return old, reifyStruct(opts.opts, old, sub)
+		}
 		return oldValue, reifyStruct(opts.opts, old, sub)
 
 	case reflect.Array:
+		if !old.CanSet() {
+			old = settableCopy(old)
+		}
 		return reifyArray(opts, old, baseType, val)
 
 	case reflect.Slice:
@@ -508,6 +517,13 @@ func reifyMergeValue(
 	}
 
 	return reifyPrimitive(opts, val, t, baseType)
+}
+
+// settableCopy returns an addressable copy of v.
+func settableCopy(v reflect.Value) reflect.Value {
+	tmp := reflect.New(v.Type()).Elem()
+	tmp.Set(v)
+	return tmp
 }
 
 func mergeFieldConfig(opts fieldOptions, to, from *Config) Error {
